@@ -74,7 +74,7 @@ def run(chk, R, tier, seed):
         cases.append(Case(sub[0], wrap(sub[1])))
 
     # 1/2 quantities across units, twins
-    per = 1 if tier == "quick" else 6
+    per = 2 if tier == "quick" else 6
     for tname in SI.LINEAR_TYPES:
         us = SI.units_of(tname)
         for s1 in us:
